@@ -56,7 +56,7 @@ SECURITY_FNS = ["has_permission", "apply_if_auth", "apply_to_database_name_if_ha
 
 PROPS = {
     "C01": dict(
-        units=["store", "listing", "snapshot", "replies", "parser", "consensus"],
+        units=["store", "listing", "snapshot", "replies", "parser", "consensus", "outbox"],
         kani=[K_PATTERN_CHOICE],
         undecided=["the command-word table of Request::parse (a lazy_static HashMap of fn pointers) and std's splitn; the per-command parsers of the data commands ARE verified against "
                    "what each command line means (unit parser: C01.parse-*); the dispatcher arms are verified in two halves that R10 / R10b cut apart and that only the extraction rule "
@@ -72,7 +72,7 @@ PROPS = {
                      "unit listing: the fn pointers returned by get_function_by_pattern are defunctionalised (R12: three tags and a match that calls the three real functions)"],
     ),
     "C02": dict(
-        units=["store", "consensus", "parser"],
+        units=["store", "consensus", "parser", "outbox"],
         kani=[K_NEXT_VERSION],
         undecided=["interleavings of concurrent clients (set_value reads under one lock acquisition and writes under another): "
                    "lock elision makes every function sequential, so 'two writers never both succeed' is NOT decided"],
@@ -99,7 +99,7 @@ PROPS = {
                      "AtomicUsize::fetch_add is modelled as a wrapping add on a plain usize"],
     ),
     "C08": dict(
-        units=["security", "store", "dispatch", "listing", "replies"],
+        units=["security", "store", "dispatch", "listing", "replies", "outbox"],
         kani=[K_FILTER],
         undecided=["handlers that do not go through apply_if_safe_access: the Resolve, Arbiter and rp (ReplicateRequest) arms of the dispatcher "
                    "- a non-admin `resolve ... $$token ...` is outside every contract here (the six keyed data arms get / get-safe / watch / set / increment / "
@@ -112,7 +112,7 @@ PROPS = {
                      "the session may access the key"],
     ),
     "C09": dict(
-        units=["security", "store", "dispatch", "permissions"],
+        units=["security", "store", "dispatch", "permissions", "outbox"],
         kani=[K_AUTH, K_KIND],
         undecided=["dispatcher arms that are not a single guard call: Auth, UseDb (failed use-db leaving the selection untouched is checked by the bounded sweep only), "
                    "Resolve, ReplicateRequest (rp); the closure bodies handed to the guards are abstracted (R10), so WHAT an arm does once allowed is not verified here",
@@ -141,7 +141,7 @@ PROPS = {
                      "arguments (the same function names the file when it is read)"],
     ),
     "C13": dict(
-        units=["consensus", "store", "listing", "snapshot"],
+        units=["consensus", "store", "listing", "snapshot", "outbox"],
         undecided=["order across several queued writes beyond one step; arbiter disconnects (unwatch-all leaves an empty watcher list under $conflicts)",
                    "primary/secondary forwarding of resolve, replicas holding the resolved value",
                    "that the notice key (format! of key and op id) sorts in the order the conflicts were recorded; a conflicted key whose name ends with `*` or contains "
@@ -174,7 +174,7 @@ PROPS = {
                      "sessions are modelled abstractly in the accounting lemmas: a map from session ids to the selected database"],
     ),
     "C05": dict(
-        units=["sync"],
+        units=["sync", "outbox"],
         undecided=["the protocol: join / replicate-since handshake, the supervisor loop, sockets, writes accepted during the synchronisation (async code, several processes)",
                    "the incremental path: that the operation-log query reports every pair changed since `since` is C12 (unit oplog); here ops_since(since) is any map of records whose "
                    "identifiers decode (precondition `decodes`: C16's subject); the comparison closure of its sort_by is replaced by a trusted shim (log order)",
@@ -242,8 +242,8 @@ PROPS = {
         assumptions=["Change::new stamps the resolving change with the wall clock (any u64)"],
     ),
     "C10": dict(
-        units=["store", "consensus", "security", "ids", "oplog", "pending", "parser", "sessions", "http", "election", "snapshot", "sync", "listing", "permissions", "replies", "oplogflag", "members"],
-        reachable={"members": ["Databases::add_cluster_member", "Databases::promote_member", "Databases::remove_cluster_member"], "oplogflag": ["invalidate_oplog", "mark_op_log_as_valid", "snapshot_keys", "generate_key_id", "arm_replicate_set", "arm_replicate_increment", "arm_replicate_remove"], "replies": ["get_key_value", "get_key_value_safe", "arm_get", "arm_get_safe", "arm_keys"], "permissions": ["Permission::from", "Permission::permissions_from_str", "From<char>@PermissionKind::from", "has_permission"], "listing": ["Database::list_keys", "filter_system_keys", "get_function_by_pattern", "starts_with", "ends_with", "contains", "Database::list_conflicts_keys",
+        units=["store", "consensus", "security", "ids", "oplog", "pending", "parser", "sessions", "http", "election", "snapshot", "sync", "listing", "permissions", "replies", "oplogflag", "members", "outbox"],
+        reachable={"outbox": ["replicate_request", "get_replicate_message", "get_replicate_remove_message", "get_replicate_increment_message", "get_resolve_message"], "members": ["Databases::add_cluster_member", "Databases::promote_member", "Databases::remove_cluster_member"], "oplogflag": ["invalidate_oplog", "mark_op_log_as_valid", "snapshot_keys", "generate_key_id", "arm_replicate_set", "arm_replicate_increment", "arm_replicate_remove"], "replies": ["get_key_value", "get_key_value_safe", "arm_get", "arm_get_safe", "arm_keys"], "permissions": ["Permission::from", "Permission::permissions_from_str", "From<char>@PermissionKind::from", "has_permission"], "listing": ["Database::list_keys", "filter_system_keys", "get_function_by_pattern", "starts_with", "ends_with", "contains", "Database::list_conflicts_keys",
                                "Database::has_pendding_conflict", "Database::register_arbiter"], "sync": ["make_create_db_command", "get_full_sync_opps", "get_pendding_opps_since"], "snapshot": ["get_keys_to_update", "write_metadata_file", "load_db_metadata_from_disk_or_empty", "ConsensuStrategy::to_le_bytes", "From<i32>@ConsensuStrategy::from", "NodeDrive::storage_data_disk", "write_value", "write_key", "update_key", "write_new_key_value", "get_key_disk_size", "create_db_from_file_name", "ValueStatus::to_le_bytes"], "http": ["process_commands"], "election": ["election_eval", "start_election", "start_new_election", "election_win", "Databases::get_role", "Databases::is_eligible", "Databases::is_primary", "From<usize>@ClusterRole::from"], "store": STORE_FNS, "security": SECURITY_FNS, "pending": ["ReplicationMessage::new", "ReplicationMessage::ack", "ReplicationMessage::replicated", "ReplicationMessage::is_full_acknowledged",
                    "ReplicationMessage::count_replication", "ReplicationMessage::count_acknowledged", "ReplicationMessage::get_copy", "Databases::register_pending_opp",
                    "Databases::acknowledge_pending_opp", "Databases::get_pending_opp_copy", "replicate_message_to_all", "replicate_message_to_secoundary"],
